@@ -14,7 +14,7 @@ import tlegen
 ID = "C11"
 LEAN_TARGETS = ["PV.Props.C11"]
 RULE = ("TLEs: the repo's test TLEs and tlegen's real near-earth sets (own derivative fields) plus generated near-earth/LEO sets with "
-        "inclination 3-177 deg (families: any, low |sin i| incl. exactly 3 and 177 deg, eccentric, epoch within 1.5 km of the ascending "
+        "inclination 3-177 deg (families: any, draggy, low |sin i| incl. exactly 3 and 177 deg, eccentric, epoch within 1.5 km of the ascending "
         "(or, 1 in 5, descending) node on either side, drag-free) whose ndot/2 and nddot/6 fields are re-encoded from the SGP4 secular "
         "rate (1.5 c1 n, (d2+2c1^2) n; zero for drag-free sets); sets on which the propagator refuses inside the window are skipped "
         "(C13). Instants in [epoch-1 d, epoch+5 d]: uniform, the epoch, and every trajectory crossing -/+ (slack + 1 ms), each in one "
@@ -23,7 +23,11 @@ RULE = ("TLEs: the repo's test TLEs and tlegen's real near-earth sets (own deriv
         "the same ticks in the same order and return the same tick in the same unit (all 7 representations); get_orbit_number on a "
         "fresh object (position queries, cached node time and period as integers, value bit-exact), day counts and the closed form "
         "bit-exact for all 4 flag combinations x 7 representations; the crossing-time offset / None decision. Oracle: crossings from "
-        "5 s sampling + bisection of z of get_position to 1 us; every implementation call under a 3 s watchdog. "
+        "5 s sampling + bisection of z of get_position to 1 us; every implementation call under a 3 s watchdog; the last-node clauses "
+        "are judged on fresh objects AND on objects that have already answered get_orbit_number, the latter at 10 ms-30 s after "
+        "true nodes 0-5 d from epoch (all nodes for the draggy family: B* 2e-4..1.2e-3 at 15.0-15.65 rev/d), and the last-node "
+        "query takes part in the order-of-first-use permutations; the crossing time is asked with arbitrary bounds in one "
+        "representation and with whole-minute bounds in all seven (each must meet the clause, all must agree to 1 us). "
         "distinct = (tle, representation, ticks)")
 ASSUMPTIONS = [
     "the count clause is judged where the expected number is >= 0 (for negative numbers 'truncated value' and 'crossing count' contradict each other)",
@@ -237,13 +241,21 @@ def gen_tle(ctx, family):
         if family == "lowinc":
             ov["incl"] = "%8.4f" % r.choice([r.uniform(3, 20), r.uniform(160, 177), 3.0, 177.0])
             ov["ecc"] = "%07d" % r.randrange(0, 30000)
+        elif family == "draggy":
+            # ~350-550 km, near-circular, B* 2e-4 .. 1.2e-3: the nodes arrive seconds earlier than a constant period predicts
+            ov["incl"] = "%8.4f" % r.choice([r.uniform(3, 177), 97.4, 51.6, r.uniform(60, 120)])
+            ov["ecc"] = "%07d" % r.randrange(0, 20000)
+            ov["mmotion"] = "%11.8f" % r.uniform(15.0, 15.65)
+            b = r.uniform(2e-4, 1.2e-3)
+            ov["bstar"] = " %05d-3" % int(b * 1e8) if b < 1e-3 else " %05d-2" % int(b * 1e7)
+            regime = "leo"
         elif family == "eccentric":
             ov["incl"] = "%8.4f" % r.choice([r.uniform(3, 177), r.uniform(3, 35), r.uniform(145, 177)])
             ov["ecc"] = "%07d" % int(10 ** r.uniform(-2, -0.5) * 1e7)
             regime = "near"
         else:
             ov["incl"] = "%8.4f" % r.choice([r.uniform(3, 177), r.uniform(3, 177), 98.7, 51.6, 63.4349, r.uniform(80, 100)])
-        if family == "dragfree" or r.random() < 0.15:
+        if family == "dragfree" or (family != "draggy" and r.random() < 0.15):
             ov.update({"bstar": " 00000-0", "ndot": " .00000000", "nddot": " 00000-0"})
         rev = r.randrange(20, 99999) if r.random() < 0.85 else r.randrange(0, 20)
         ov["rev"] = "%5d" % rev
@@ -329,7 +341,7 @@ def gen_tles(ctx, n, n_real):
     out = real_tles()
     ctx.rng.shuffle(out)
     out = out[:n_real]
-    fams = ["any", "any", "lowinc", "eccentric", "atnode", "dragfree", "any", "lowinc", "atnode", "eccentric"]
+    fams = ["any", "draggy", "lowinc", "eccentric", "atnode", "dragfree", "any", "draggy", "atnode", "eccentric", "lowinc"]
     i = 0
     while len(out) < n:
         t = gen_tle(ctx, fams[i % len(fams)])
@@ -517,9 +529,17 @@ def judge_last_an(sat, rep, o=None):
     return out
 
 
-def judge_crossing(sat, o, a_us, b_us, node, rtol, as_dt64):
-    """Violations of the crossing-time clause for one interval."""
-    mk = (lambda u: np.datetime64(int(u), "us")) if as_dt64 else (lambda u: EPOCH70 + dt.timedelta(microseconds=int(u)))
+def judge_crossing(sat, o, a_us, b_us, node, rtol, kind="us", result=None):
+    """Violations of the crossing-time clause for one interval whose bounds are given in representation `kind`
+    (True/False: datetime64[us] / naive datetime, the older spelling).  `result`, a list, receives the returned microsecond."""
+    if kind is True:
+        kind = "us"
+    elif kind is False:
+        kind = "naive"
+    a_us, b_us = rep_ns(make_rep(kind, int(a_us) * 1000)) // 1000, rep_ns(make_rep(kind, int(b_us) * 1000)) // 1000
+
+    def mk(u):
+        return rep_value(make_rep(kind, int(u) * 1000))
     try:
         with warnings.catch_warnings():
             warnings.simplefilter("ignore")
@@ -540,7 +560,9 @@ def judge_crossing(sat, o, a_us, b_us, node, rtol, as_dt64):
         return out
     if not isinstance(res, dt.datetime):
         return [("crossing_type", repr(type(res)), "a datetime", {})]
-    r_us = int((res - EPOCH70) // dt.timedelta(microseconds=1))
+    r_us = int((res.replace(tzinfo=None) - EPOCH70) // dt.timedelta(microseconds=1))
+    if result is not None:
+        result.append(r_us)
     if not (a_us <= r_us <= b_us):
         out.append(("crossing_outside", str(res), "within [tstart, tend]", {}))
     with warnings.catch_warnings():
@@ -557,15 +579,34 @@ def judge_crossing(sat, o, a_us, b_us, node, rtol, as_dt64):
     return out
 
 
+def judge_crossing_reps(sat, o, a_us, b_us, node, rtol):
+    """The crossing-time clause with the two bounds given in every representation (instants on whole minutes, which all
+    seven hold exactly): each must satisfy the clause, and all must give the same time (to 1 us) or all none."""
+    out, got = [], {}
+    for kind in REPS:
+        res = []
+        for f in judge_crossing(sat, o, a_us, b_us, node, rtol, kind, res):
+            out.append((f[0], f[1], f[2], dict(f[3], bounds_kind=kind)))
+        got[kind] = res[0] if res else None
+    vals = [v for v in got.values() if v is not None]
+    if vals and (len(vals) != len(got) or max(vals) - min(vals) > 1):
+        bad = [k for k in REPS if got[k] is None] or [max(got, key=lambda k: abs(got[k] - got["us"]) if got["us"] is not None else 0)]
+        out.append(("crossing_representation", lib.jsonable(got), "the same crossing time (to 1 us) for every representation of the bounds",
+                    {"bounds_kind": bad[0]}))
+    return out
+
+
 def order_ops(sat, seed_times):
     """Operations whose results must not depend on the order of first use of the cached node time."""
-    t1, t2, t3, a, b = seed_times
+    t1, t2, t3, a, b = seed_times[:5]
+    tq = seed_times[5] if len(seed_times) > 5 else t1
     return [
         ("n1", lambda o: o.get_orbit_number(np.datetime64(t1, "us"))),
         ("n2tbus", lambda o: o.get_orbit_number(EPOCH70 + dt.timedelta(microseconds=t2), tbus_style=True)),
         ("n3float", lambda o: float(o.get_orbit_number(np.datetime64(t3 * 1000 + 7, "ns"), as_float=True))),
         ("cross", lambda o: o.get_equatorial_crossing_time(EPOCH70 + dt.timedelta(microseconds=a), EPOCH70 + dt.timedelta(microseconds=b))),
         ("cache", lambda o: (str(o.orbit_elements.an_time), str(o.orbit_elements.an_period))),
+        ("lastan", lambda o: str(o.get_last_an_time(np.datetime64(tq, "us")))),
     ]
 
 
@@ -610,13 +651,24 @@ def timed_out(ctx, kind, note=False):
 
 
 # ------------------------------------------------------------------------------------------------ correspondence
-def corr_last_an(ctx, drv, sat, reps, batch):
-    """get_last_an_time on every representation: the model, given the z the code saw, asks for the same ticks and returns the same tick."""
-    for rep in reps:
+def corr_last_an(ctx, drv, sat, reps, batch, cached=None):
+    """get_last_an_time on every representation: the model, given the z the code saw, asks for the same ticks and returns the same
+    tick.  Every other query is made on an object that has already answered get_orbit_number (the search must not depend on
+    the cached node time)."""
+    for n, rep in enumerate(reps):
         o = sat.fresh()
+        use_cache = (n % 2 == 1) if cached is None else cached
+        if use_cache:
+            if timed_out(ctx, "init"):
+                continue
+            try:
+                guarded(lambda: o.get_orbit_number(o.tle.epoch))
+            except Timeout:
+                continue        # reported by corr_numbers
         rec = Recorder(o)
         val = rep_value(rep)
-        case = dict(sat.base(), rep=rep, op="last_an", check="nonterminating")
+        case = dict(sat.base(), rep=rep, op="last_an", check="nonterminating", after_orbit_number=use_cache)
+        ctx.bump("last_an_object", "after_orbit_number" if use_cache else "fresh")
         if timed_out(ctx, rep["kind"]):
             continue
         try:
@@ -871,7 +923,7 @@ def emit(ctx, sat, rep, found, site, extra_case=None):
         ctx.violation(kind, case, observed, required, site=site)
 
 
-def oracle_sat(ctx, sat, n_random, n_an, n_cross, all_crossings=True):
+def oracle_sat(ctx, sat, n_random, n_an, n_cross, all_crossings=True, n_after=16):
     r = ctx.rng
     e = sat.e_us
     cs = sat.cs()
@@ -924,6 +976,20 @@ def oracle_sat(ctx, sat, n_random, n_an, n_cross, all_crossings=True):
             ctx.count("eval_oracle_last_an")
             ctx.bump("oracle_representation", kind)
             emit(ctx, sat, rep, found, "Orbital.get_last_an_time")
+    # ... and on the object that has ALREADY answered get_orbit_number (`o`): queries shortly after true nodes of the
+    # trajectory, where a stale answer (the node one revolution earlier) would be "another node between result and query"
+    late = inside[inside >= e]
+    pick = list(late) if (all_crossings and sat.family == "draggy") else (r.sample(list(late), min(len(late), n_after)) if len(late) else [])
+    for c in pick + ([int(late[-1])] if len(late) else []):
+        off_us = int(10 ** r.uniform(4, 7.48))          # 10 ms .. 30 s after the node
+        rep = make_rep(r.choice(REPS), (int(c) + off_us) * 1000 + r.randrange(1000))
+        if timed_out(ctx, rep["kind"]):
+            continue
+        found = judge_last_an(sat, rep, o=o)
+        if any(f[0] == "nonterminating" for f in found):
+            timed_out(ctx, rep["kind"], note=True)
+        ctx.count("eval_oracle_last_an_cached")
+        emit(ctx, sat, rep, found, "Orbital.get_last_an_time", {"after_orbit_number": True})
     # equator crossing time
     p_us = int(DAY_US / sat.mm)
     for _ in range(n_cross):
@@ -931,22 +997,37 @@ def oracle_sat(ctx, sat, n_random, n_an, n_cross, all_crossings=True):
         b = a + int(r.uniform(0.05, 1.9) * p_us)
         node = r.choice(["ascending", "ascending", "descending"])
         rtol = r.choice([None, None, 1e-12])
-        as64 = r.random() < 0.5
+        kind = r.choice(REPS)
         if timed_out(ctx, "init"):
             break
+        a2, b2 = a - a % 60000000, b - b % 60000000 + 60000000
         try:
-            found = guarded(lambda: judge_crossing(sat, o, a, b, node, rtol, as64))
+            # arbitrary bounds in one representation (coarse units truncate them) ...
+            found = guarded(lambda: [(f[0], f[1], f[2], dict(f[3], bounds_kind=kind)) for f in judge_crossing(sat, o, a, b, node, rtol, kind)])
         except Timeout:
             timed_out(ctx, "init", note=True)
             found = [("nonterminating_crossing", "no result within %.0f s" % WATCHDOG_S, "get_equatorial_crossing_time returns", {})]
         ctx.count("eval_oracle_crossing")
         emit(ctx, sat, {"kind": "us", "ticks": a}, found, "Orbital.get_equatorial_crossing_time",
              {"tstart_us": a, "tend_us": b, "node": node, "rtol": rtol})
+        if timed_out(ctx, "init"):
+            break
+        try:
+            # ... then whole-minute bounds, which all seven representations hold exactly
+            found = guarded(lambda: judge_crossing_reps(sat, o, a2, b2, node, rtol))
+        except Timeout:
+            timed_out(ctx, "init", note=True)
+            found = [("nonterminating_crossing", "no result within %.0f s" % WATCHDOG_S, "get_equatorial_crossing_time returns", {})]
+        ctx.count("eval_oracle_crossing", len(REPS))
+        emit(ctx, sat, {"kind": "us", "ticks": a2}, found, "Orbital.get_equatorial_crossing_time",
+             {"tstart_us": a2, "tend_us": b2, "node": node, "rtol": rtol})
     # any order of first use
     t1, t2, t3 = (r.randrange(e - DAY_US, e + 5 * DAY_US) for _ in range(3))
     a = r.randrange(e - DAY_US, e + 4 * DAY_US)
-    seeds = (t1, t2, t3, a, a + int(1.3 * p_us))
-    perms = [tuple(range(5))] + [tuple(r.sample(range(5), 5)) for _ in range(3)] + [(3, 0, 1, 2, 4), (2, 3, 1, 0, 4)]
+    tq = (int(late[-1 - r.randrange(min(8, len(late)))]) + int(10 ** r.uniform(4.5, 6.7))) if len(late) else t1
+    seeds = (t1, t2, t3, a, a + int(1.3 * p_us), tq)
+    idx = [0, 1, 2, 3, 5]
+    perms = [tuple(idx) + (4,), (5, 0, 1, 2, 3, 4)] + [tuple(r.sample(idx, 5)) + (4,) for _ in range(3)] + [(3, 0, 5, 1, 2, 4), (2, 3, 1, 0, 5, 4)]
     if timed_out(ctx, "init"):
         return
     try:
@@ -1021,7 +1102,7 @@ def replay(ctx, payload):
             batch = []
             drv = ctx.driver()
             if case.get("op") in ("last_an", "last_an_init"):
-                corr_last_an(sub, drv, sat, [case["rep"]], batch)
+                corr_last_an(sub, drv, sat, [case["rep"]], batch, cached=bool(case.get("after_orbit_number")))
             elif case.get("op") == "crossing":
                 corr_crossing(sub, drv, sat, [(case["tstart_us"], case["tend_us"], case["node"])], batch)
             else:
@@ -1071,12 +1152,20 @@ def replay(ctx, payload):
             found = [(kind, "no result within %.0f s" % WATCHDOG_S, "get_equatorial_crossing_time returns", {})]
     elif kind == "order_dependent":
         found = judge_order(sat, tuple(case["seed_times"]), [tuple(p) for p in case["perms"]])
+    elif kind == "crossing_representation":
+        found = judge_crossing_reps(sat, sat.fresh(), case["tstart_us"], case["tend_us"], case["node"], case.get("rtol"))
     elif kind and kind.startswith("crossing"):  # crossing_missed / _outside / _not_root / _wrong_integer
         found = []
-        for as64 in (True, False):
-            found += judge_crossing(sat, sat.fresh(), case["tstart_us"], case["tend_us"], case["node"], case.get("rtol"), as64)
+        for k in ([case["bounds_kind"]] if case.get("bounds_kind") else ["us", "naive"]):
+            found += judge_crossing(sat, sat.fresh(), case["tstart_us"], case["tend_us"], case["node"], case.get("rtol"), k)
     else:
-        found = judge_last_an(sat, rep)
+        o = None
+        if case.get("after_orbit_number"):
+            o = sat.fresh()
+            with warnings.catch_warnings():
+                warnings.simplefilter("ignore")
+                o.get_orbit_number(o.tle.epoch)
+        found = judge_last_an(sat, rep, o=o)
     found = [f for f in found if f[0] == kind] or ([] if kind in ("count", "trunc", "tbus", "int_type") else found)
     for (k, observed, required, extra) in found:
         print("VIOLATES %s: %s; required: %s %s" % (k, observed, required, extra or ""))
